@@ -32,18 +32,27 @@ def conflict_spec(mode, depth, **kw):
                        'file_development_5.1', 'theirs\n']], **kw)
 
 
-def create_spec(queue, depth):
+def create_spec(queue, depth, layout='D3'):
     """Branch creation (with explicit branching points) in states where
     destination branches have moved."""
     jobs = []
-    for name in ('development/4.4', 'development/5.0', 'development/10.1',
-                 'stabilization/5.1.0', 'stabilization/4.3.0'):
-        for frm in ('', '@development/4.3~1', '@development/10.0~1',
-                    '@development/5.1', 'development/4.3'):
+    names = ('development/4.4', 'development/5.0', 'development/10.1',
+             'stabilization/5.1.0', 'stabilization/4.3.0')
+    froms = ('', '@development/4.3~1', '@development/10.0~1',
+             '@development/5.1', 'development/4.3')
+    if layout == 'SS3':
+        # stabilization branches next to the insertion points
+        names = ('development/4.4', 'development/5.0', 'development/5.2',
+                 'development/10.1')
+        froms = ('', '@development/10.0', '@development/10.0~1',
+                 '@development/5.1', '@development/4.3',
+                 '@stabilization/5.1.5')
+    for name in names:
+        for frm in froms:
             jobs.append(['create_branch', name] + ([frm] if frm else []))
-    return {'driver': 'admin', 'name': 'create-%s-D3' % (
-        'q' if queue else 'noq'),
-        'config': {'layout': 'D3', 'queue': queue, 'skip_queue': False,
+    return {'driver': 'admin', 'name': 'create-%s-%s' % (
+        'q' if queue else 'noq', layout),
+        'config': {'layout': layout, 'queue': queue, 'skip_queue': False,
                    'options': BYPASS_REVIEW + ['bypass_build_status']},
         'init': [['open', PR1, 'development/4.3'],
                  ['open', PR2, 'development/5.1']],
@@ -56,6 +65,7 @@ def specs(tier):
     if tier == 'quick':
         return [
             create_spec(False, 3),
+            create_spec(False, 2, 'SS3'),
             spec('q-S3', 'S3', 'stabilization/4.3.18', 'development/4.3',
                  depth=6),
             spec('skipq-M3', 'M3', 'development/4.3', 'development/4.3',
@@ -81,6 +91,7 @@ def specs(tier):
             conflict_spec('q', 6),
         ]
     out = [create_spec(False, 4), create_spec(True, 5),
+           create_spec(False, 4, 'SS3'), create_spec(True, 4, 'SS3'),
            conflict_spec('noq', 10, queue=False), conflict_spec('q', 9),
            conflict_spec('skipq', 9, skip=True)]
     for mode, kw in [('q', dict()), ('skipq', dict(skip=True)),
